@@ -122,7 +122,7 @@ func c19Gen(r *rand.Rand, tier string, idx int) any {
 	case 2, 3, 4:
 		p.Corrupt, p.Arg = "flip", r.IntN(1<<20)
 	case 5:
-		p.Corrupt = "seqmax"
+		p.Corrupt = []string{"seqmax", "exhaust"}[r.IntN(2)]
 	case 6:
 		p.Corrupt, p.Arg = "field", r.IntN(64)
 	}
@@ -192,6 +192,33 @@ func c19Run(rc *RunCtx, params any) {
 	}
 	if !p.InFlight {
 		s.Run(func() bool { return len(readers[peer].Got) == p.I && len(readers[p.Side].Got) == p.J }, 5*time.Second)
+	}
+	if p.Corrupt == "exhaust" && cfg.C.MaxVer == 12 {
+		// the exporter uses up its epoch: its record number jumps to 2^48-2 (for the peer: a long run
+		// of lost records), two more records go out, the next Write must be refused
+		conn := pair.ConnOf(p.Side)
+		cur := dtls.VerifLocalSeq(conn)
+		if len(cur) < 2 {
+			rc.Violate("harness", "no epoch-1 counter")
+
+			return
+		}
+		dtls.VerifSkipLocalSeq(conn, (1<<48-2)-cur[1])
+		for k := 0; k < 2; k++ {
+			if err := write(p.Side, conn, 50+k); err != nil {
+				rc.Violate("seq-exhaust-early", "write with record number 2^48-%d refused: %v", 2-k, err)
+
+				return
+			}
+		}
+		if err := write(p.Side, conn, 52); err == nil {
+			rc.Violate("seq-wrap", "a Write after record number 2^48-1 succeeded (must fail rather than wrap)")
+
+			return
+		}
+		wrote[p.Side] = wrote[p.Side][:len(wrote[p.Side])-1]
+		s.Run(func() bool { return false }, time.Second)
+		s.Probe("epoch-exhausted-before-export")
 	}
 	// ---- export ----
 	old := pair.ConnOf(p.Side)
@@ -333,6 +360,39 @@ func c19Run(rc *RunCtx, params any) {
 	basePeerGot := len(readers[peer].Got)
 	nAfter := 3
 	var postErrs []error
+	if p.Corrupt == "exhaust" {
+		// nothing may be written by the resumed endpoint any more; the peer's direction still works
+		for k := 0; k < 2; k++ {
+			if err := write(p.Side, resumed, 100+k); err == nil {
+				rc.Violate("seq-wrap", "the connection resumed from a state whose epoch was exhausted accepted a Write")
+
+				return
+			}
+			wrote[p.Side] = wrote[p.Side][:len(wrote[p.Side])-1]
+		}
+		mon := NewNonceMonitor()
+		peerCID := len(cfg.S.CIDOf())
+		if p.Side == "s" {
+			peerCID = len(cfg.C.CIDOf())
+		}
+		for _, em := range emittedBefore {
+			_ = mon.Feed(em, peerCID)
+		}
+		for _, em := range n.EmitsOf(newName) {
+			em.Ep = p.Side
+			em.Idx += 1 << 20
+			if ferr := mon.Feed(em, peerCID); ferr != nil {
+				rc.Violate("nonce-reuse-after-import", "%v", ferr)
+
+				return
+			}
+		}
+		s.Probe("exhausted-epoch-stays-exhausted-after-import")
+		rc.R.NonTriv = true
+		_ = resumed.Close()
+
+		return
+	}
 	for k := 0; k < nAfter; k++ {
 		if err := write(p.Side, resumed, 100+k); err != nil {
 			postErrs = append(postErrs, err)
